@@ -343,6 +343,63 @@ theorem flip_world (v : Vol) (a : Fin 3) (p : Fin 3 → Int) :
       · subst hi; simp only [if_true] at this; omega
       · simp only [if_neg hi] at this; exact this
 
+/-- every sample of `w` is a sample of `v` at the same world position -/
+def SameWorld (w v : Vol) : Prop :=
+  ∃ σ : (Fin 3 → Int) → (Fin 3 → Int), ∀ p,
+    (w.g.inside p ↔ v.g.inside (σ p)) ∧ w.g.val p = v.g.val (σ p) ∧
+    w.aff.apply (castPt p) = v.aff.apply (castPt (σ p))
+
+theorem SameWorld.refl (v : Vol) : SameWorld v v := ⟨id, fun _ => ⟨Iff.rfl, rfl, rfl⟩⟩
+
+theorem SameWorld.trans {u w v : Vol} (h1 : SameWorld u w) (h2 : SameWorld w v) : SameWorld u v := by
+  obtain ⟨σ, hσ⟩ := h1
+  obtain ⟨τ, hτ⟩ := h2
+  refine ⟨fun p => τ (σ p), fun p => ?_⟩
+  obtain ⟨a1, a2, a3⟩ := hσ p
+  obtain ⟨b1, b2, b3⟩ := hτ (σ p)
+  exact ⟨a1.trans b1, a2.trans b2, a3.trans b3⟩
+
+/-- the whole reordering loop of `xyz_ordered` (all axis swaps, then all flips of negative axes)
+    keeps every sample at its world position, for any affine.  Partial: the final
+    `from_matrix_vector(np.diag(pixdim), b)`, which discards off-diagonal entries below the 1e-3
+    guard, is not covered (it is exact when those entries are zero). -/
+theorem xyz_reorder_same_world_partial (v : Vol) : SameWorld (Vol.sortAxes 3 v).flipNeg v := by
+  have hswap : ∀ (u : Vol) (a c : Fin 3), SameWorld (u.swapaxes a c) u := fun u a c =>
+    ⟨fun p i => p (swapFin a c i), fun p =>
+      ⟨(swapaxes_world u a c p).2.2, (swapaxes_world u a c p).1, (swapaxes_world u a c p).2.1⟩⟩
+  have hflip : ∀ (u : Vol) (a : Fin 3), SameWorld (u.flip a) u := fun u a =>
+    ⟨fun p i => if i = a then (u.g.shape a : Int) - 1 - p i else p i, fun p =>
+      ⟨(flip_world u a p).2.2, (flip_world u a p).1, (flip_world u a p).2.1⟩⟩
+  have hsort : ∀ (fuel : Nat) (u : Vol), SameWorld (Vol.sortAxes fuel u) u := by
+    intro fuel
+    induction fuel with
+    | zero => intro u; exact SameWorld.refl u
+    | succ k ih =>
+        intro u
+        simp only [Vol.sortAxes]
+        split
+        · exact (ih _).trans (hswap u 1 0)
+        · split
+          · exact (ih _).trans (hswap u 2 1)
+          · exact SameWorld.refl u
+  have hneg : ∀ u : Vol, SameWorld u.flipNeg u := by
+    intro u
+    simp only [Vol.flipNeg]
+    have h0 : SameWorld (if u.aff.A 0 0 < 0 then u.flip 0 else u) u := by
+      split
+      · exact hflip u 0
+      · exact SameWorld.refl u
+    generalize (if u.aff.A 0 0 < 0 then u.flip 0 else u) = u0 at h0 ⊢
+    have h1 : SameWorld (if u0.aff.A 1 1 < 0 then u0.flip 1 else u0) u0 := by
+      split
+      · exact hflip u0 1
+      · exact SameWorld.refl u0
+    generalize (if u0.aff.A 1 1 < 0 then u0.flip 1 else u0) = u1 at h1 ⊢
+    split
+    · exact ((hflip u1 2).trans h1).trans h0
+    · exact h1.trans h0
+  exact (hneg _).trans (hsort 3 v)
+
 /-! ## Non-vacuity: concrete objects meeting the hypotheses -/
 
 -- an inverse pair accepted by the driver's check (anisotropic, flipped, shifted)
